@@ -88,6 +88,15 @@ def run(ctx):
     # cheap part: trace validation + each-once oracle on many Prince grids (ties between word and mask probabilities)
     for i in range(ctx.scale(60, 400)):
         spec = prince_spec(rng)
+        if i == 0:
+            # variable names and group indices that read the same when written one after the other: (D2, 11) / (D21, 1), (O1, 11) / (O11, 1)
+            probs12 = [repr(2.0 ** -(k + 2)) for k in range(12)]
+            spec = {'terminals': {'D2': [['%02d' % k, p] for k, p in enumerate(probs12)],
+                                  'D21': [['1' * 21, '0.5'], ['2' * 21, '0.25']],
+                                  'O1': [[c, p] for c, p in zip('!#$%&*+-/:;=', probs12)],
+                                  'O11': [['!' * 11, '0.5'], ['#' * 11, '0.25']]},
+                    'grammar': [['D2', '0.25'], ['D21', '0.25'], ['O1', '0.25'], ['O11', '0.25']],
+                    'prince': [['D2', '0.4'], ['D21', '0.3'], ['O1', '0.2'], ['O11', '0.1']], 'omen_prob': [], 'mode': 'dyadic', 'encoding': 'utf-8'}
         d = common.write_ruleset(os.path.join(common.scratch_dir('rules'), f'prt{i % 10}'), spec)
         lower = rng.random() < 0.3
         try:
